@@ -333,6 +333,50 @@ theorem rpm_dir_mode_verbatim (m : Nat) : (u16 (m ||| 0o40000)) &&& 0o7777 = m &
   rw [Nat.or_mod_two_pow]
   simp
 
+/-- what rpm additionally needs of an entry: addressed to rpm (or to all), explicitly declared, and – for
+    file-like entries – a mode without the two bit patterns by which rpmpack classifies directories and links -/
+structure RpmOK (c : Content) : Prop where
+  relevant : c.packager = [] ∨ c.packager = P.rpm
+  notImplicit : c.type ≠ T.implicitDir
+  fileBits : isDirType c.type = false → c.type ≠ T.symlink →
+    ((cinfo c).mode &&& 0o40000 != 0) = false ∧ ((cinfo c).mode &&& 0o120000 == 0o120000) = false
+
+/-- **rpm**: the header/cpio entry written for a payload-bearing entry denotes exactly that entry
+    (paths as ToNixPath renders them, low twelve mode bits, owner, group, uint32 time, size, link, source) -/
+theorem rpm_member_denotes (now imt : Int) (c : Content) (h : EntryOK c) (hr : RpmOK c) (hn : noPayload c.type = false) :
+    ((rpmMember now imt c).filter (·.inPayload)).map (logical1 .rpm) = denote1 .rpm c := by
+  obtain ⟨x, hx, hdst⟩ := h.shape
+  have hname : toNix c.dst = pathOf c.dst := by rw [hdst]; exact toNix_keyOf _ x hx
+  have hroot : toNix c.dst ≠ slashS := by
+    rw [hname, hdst, pathOf_keyOf _ x hx]
+    intro e
+    have : jn x = [] := by simpa [slashS] using e
+    exact jn_ne_nil x hx this
+  have hpk : (c.packager ≠ [] && c.packager ≠ P.rpm) = false := by
+    rcases hr.relevant with e | e <;> simp [e]
+  have hib : (c.type == T.implicitDir) = false := by rw [beq_eq_false_iff_ne]; exact hr.notImplicit
+  have hghost : c.type ≠ T.ghost := by
+    intro e; simp [noPayload, e] at hn
+  unfold rpmMember denote1
+  simp only [hpk, Bool.false_eq_true, if_false, if_neg hr.notImplicit, if_neg hroot, hn, hib, Bool.and_false]
+  by_cases hs : c.type = T.symlink
+  · have hd : isDirType c.type = false := by rw [hs]; decide
+    have hsb : (c.type == T.symlink) = true := by rw [hs]; decide
+    simp only [if_pos hs, hd, hsb, Bool.false_eq_true, if_false, if_true, Option.filter, Option.map, logical1, pathOfName,
+      hname, show (tSym = tDir) = False by decide]
+  · have hsb : (c.type == T.symlink) = false := by rw [beq_eq_false_iff_ne]; exact hs
+    by_cases hd : c.type = T.dir
+    · have hdt : isDirType c.type = true := by rw [hd]; decide
+      simp only [if_neg hs, if_pos hd, hdt, if_true, Option.filter, Option.map, logical1, pathOfName, hname,
+        rpm_dir_mode_verbatim]
+    · have hdt : isDirType c.type = false := by
+        simp [isDirType, hd, hr.notImplicit]
+      obtain ⟨hb1, hb2⟩ := hr.fileBits hdt hs
+      simp only [if_neg hs, if_neg hd, hdt, hsb, Bool.false_eq_true, if_false, hghost, false_and, decide_false,
+        Bool.false_and, hb1, hb2, Option.filter, Option.map, logical1, pathOfName, hname, rpm_mode_verbatim,
+        ne_eq, not_false_eq_true, decide_true, if_true, show (tReg = tDir) = False by decide,
+        show (tReg = tSym) = False by decide]
+
 /-- non-vacuity: a setuid file, a directory and a symlink satisfy `EntryOK` and the
     deb member of the file carries mode 04755 and its owner. -/
 example :
